@@ -2149,3 +2149,198 @@ def fn_param_names(prog, path):
     for p in h["params"]:
         out.append(p["n"] if p.get("k") == "bind" else None)
     return out
+
+
+# --------------------------------------------------------------------------------------
+# (G) mirror symmetry of double-ended iterators
+
+MIRROR_WORDS = [("lo_consumer", "hi_consumer"), ("lo_data_block", "hi_data_block"), ("lo_reader", "hi_reader"),
+                ("lo_offset", "hi_offset"), ("initialize_lo", "initialize_hi"), ("next_back", "next"), ("lo", "hi"),
+                ("front", "back"), ("peek_back", "peek"), ("pop_max", "pop_min"), ("first", "last")]
+
+
+def mirror_tok(t):
+    out = []
+    for part in re.split(r"(\W+)", t):
+        rep = part
+        for a, b in MIRROR_WORDS:
+            if part == a:
+                rep = b
+                break
+            if part == b:
+                rep = a
+                break
+        out.append(rep)
+    return "".join(out)
+
+
+def _recv_root(n):
+    k = n.get("k") if isinstance(n, dict) else None
+    if k == "field":
+        base = _recv_root(n["e"])
+        return base + "." + n["n"] if base == "self" else base
+    if k == "var":
+        return "self" if n["n"] == "self" else "local"
+    if k in ("ref", "un", "try"):
+        return _recv_root(n["e"])
+    if k == "mcall":
+        return _recv_root(n["r"])
+    return "expr"
+
+
+def event_skeleton(n, out=None):
+    """Ordered events of a body: method calls (by receiver root: self.<field> / local), free calls, branches, returns and
+    stores into self fields.  Local names and literals do not appear."""
+    if out is None:
+        out = []
+    if isinstance(n, list):
+        for x in n:
+            event_skeleton(x, out)
+        return out
+    if not isinstance(n, dict):
+        return out
+    k = n.get("k")
+    if k == "mcall":
+        event_skeleton(n["r"], out)
+        for a in n["a"]:
+            event_skeleton(a, out)
+        out.append("call:%s.%s" % (_recv_root(n["r"]), n["m"]))
+    elif k == "call":
+        for a in n["a"]:
+            event_skeleton(a, out)
+        out.append("fn:%s" % ((n.get("p") or "?").split("::")[-1]))
+    elif k == "if":
+        event_skeleton(n["c"], out)
+        out.append("if{")
+        event_skeleton(n.get("t"), out)
+        if n.get("e") is not None:
+            out.append("}else{")
+            event_skeleton(n["e"], out)
+        out.append("}")
+    elif k == "letx":
+        # `if let PAT = EXPR`: which place is looked at matters (self.lo_consumer vs self.hi_consumer)
+        event_skeleton(n.get("init"), out)
+        out.append("letx:%s" % _recv_root(n.get("init")))
+    elif k == "let":
+        if "init" in n:
+            event_skeleton(n["init"], out)
+        if "else" in n:
+            out.append("else{")
+            event_skeleton(n["else"], out)
+            out.append("}")
+    elif k == "ret":
+        if n.get("e") is not None:
+            event_skeleton(n["e"], out)
+        out.append("ret")
+    elif k == "assign":
+        event_skeleton(n["r"], out)
+        out.append("set:%s" % _recv_root(n["l"]))
+    elif k == "closure":
+        pass
+    else:
+        for key, v in n.items():
+            if key not in ("k", "ln") and isinstance(v, (dict, list)):
+                event_skeleton(v, out)
+    return out
+
+
+def normalise_events(toks):
+    """Order-insensitive where order cannot matter: runs of consecutive stores, and consecutive sibling blocks that apply
+    the two scan bounds (`if let Some(b) = lo { it.seek_lower(b) }` / the same for hi): both directions apply both bounds,
+    in whatever order."""
+    def parse(i):
+        items = []
+        while i < len(toks):
+            t = toks[i]
+            if t in ("if{", "else{"):
+                then, i = parse(i + 1)
+                els = None
+                if i < len(toks) and toks[i] == "}else{":
+                    els, i = parse(i + 1)
+                items.append((t, then, els))
+                i += 1      # the closing }
+            elif t in ("}", "}else{"):
+                return items, i
+            else:
+                items.append(t)
+                i += 1
+        return items, i
+
+    def flat(items):
+        out = []
+        for it in items:
+            if isinstance(it, tuple):
+                out.append(it[0])
+                out += flat(it[1])
+                if it[2] is not None:
+                    out.append("}else{")
+                    out += flat(it[2])
+                out.append("}")
+            else:
+                out.append(it)
+        return out
+
+    def norm(items):
+        items = [(it[0], norm(it[1]), norm(it[2]) if it[2] is not None else None) if isinstance(it, tuple) else it for it in items]
+        # units: [letx:*]? + if-block mentioning a seek
+        units = []
+        i = 0
+        while i < len(items):
+            it = items[i]
+            if isinstance(it, str) and it.startswith("letx:") and i + 1 < len(items) and isinstance(items[i + 1], tuple) \
+                    and any("seek_" in x for x in flat([items[i + 1]])):
+                units.append(("U", [it, items[i + 1]]))
+                i += 2
+            elif isinstance(it, tuple) and any("seek_" in x for x in flat([it])) and len(flat([it])) <= 12:
+                units.append(("U", [it]))
+                i += 1
+            else:
+                units.append(("X", [it]))
+                i += 1
+        out = []
+        i = 0
+        while i < len(units):
+            if units[i][0] == "U":
+                j = i
+                while j < len(units) and units[j][0] == "U":
+                    j += 1
+                # which bound is which is not a matter of direction (C03.f checks that both are applied): canonical names
+                canon = [[re.sub(r"seek_(lower|upper)", "seek_BOUND", re.sub(r"self\.(lo|hi)$", "self.BOUND", x)) for x in flat(u[1])]
+                         for u in units[i:j]]
+                for cu in sorted(canon):
+                    out += cu
+                i = j
+            else:
+                out += units[i][1]
+                i += 1
+        # runs of stores
+        res = []
+        i = 0
+        while i < len(out):
+            if isinstance(out[i], str) and out[i].startswith("set:"):
+                j = i
+                while j < len(out) and isinstance(out[j], str) and out[j].startswith("set:"):
+                    j += 1
+                res += sorted(out[i:j])
+                i = j
+            else:
+                res.append(out[i])
+                i += 1
+        return res
+    tree, _ = parse(0)
+    return flat(norm(tree))
+
+
+def mirror_diff(prog, ty):
+    """None if `next` mirrored equals `next_back` for the type, else a short description of the first difference."""
+    a = prog.hir.get("<%s as std::iter::Iterator>::next" % ty)
+    b = prog.hir.get("<%s as std::iter::DoubleEndedIterator>::next_back" % ty)
+    if a is None or b is None:
+        return "missing"
+    sa = normalise_events([mirror_tok(t) for t in event_skeleton(a["body"])])
+    sb = normalise_events(event_skeleton(b["body"]))
+    if sa == sb:
+        return None
+    import difflib
+    d = [l for l in difflib.unified_diff(sa, sb, lineterm="", n=0) if not l.startswith(("---", "+++", "@@"))]
+    return "; ".join(d[:6])
